@@ -170,6 +170,36 @@ def same_value(a, b):
     return type(a) is type(b) and a == b
 
 
+def out_same(a, b):
+    """Two call outcomes are the same: same status and - number by number - bit-identical
+    floats, or numerically equal values where an int meets a float (a sigma clamped back to an
+    int prior is the int; the twin restored through a coercing constructor holds the float)."""
+    if a[0] != b[0]:
+        return False
+    if a[0] != "ok":
+        return a[1] == b[1]
+
+    def walk(x, y):
+        if isinstance(x, list) and isinstance(y, list):
+            return len(x) == len(y) and all(walk(p, q) for p, q in zip(x, y))
+        if isinstance(x, list) or isinstance(y, list):
+            return False
+        u, v = dec(x), dec(y)
+        if isinstance(u, float) and isinstance(v, float):
+            return enc(u) == enc(v)
+        return same_value(u, v)
+
+    return walk(a[1], b[1])
+
+
+def snap_same(a, b):
+    """Two argument snapshots hold the same VALUES (an int 25 in one twin and a float 25.0 in
+    the other is the same value: a construction path may coerce)."""
+    fa = [x for t in a for p in t for x in p]
+    fb = [x for t in b for p in t for x in p]
+    return len(fa) == len(fb) and all(same_value(dec(x), dec(y)) for x, y in zip(fa, fb))
+
+
 def check_built(ctx, r, mu, sigma, name, path, created):
     """Construction invariants of a rating built through rating()/create_rating().  The id is
     deliberately NOT read here: an implementation may create it lazily, and reading it now
@@ -1204,7 +1234,7 @@ class RejectDriver:
         accepted = league.teams_of(names)
         for kind in ("win", "draw", "rank"):
             call_outcome(lambda: do_predict(league.model, kind, accepted))
-        for desc in op["faults"]:
+        for k_fault, desc in enumerate(op["faults"]):
             saved = None
             if desc.get("inplace"):
                 league.teams_of(names)  # refresh the roster lists in place
@@ -1217,6 +1247,13 @@ class RejectDriver:
                 teams = league.teams_of(names)
             call, args, kw = faults.build_call(desc, model_name, teams)
             label = faults.fault_label(desc)
+            if call == "rate" and k_fault % 5 < 2:
+                # an otherwise ordinary malformed report may well carry per-call options that
+                # differ from the model's (a rejected call must not leave them on the model)
+                if k_fault % 5 == 0:
+                    kw["tau"] = dec(ctx.cfg["kwargs"]["tau"]) * 2.0 + 0.25 * league.dom.beta
+                kw["limit_sigma"] = not ctx.cfg["kwargs"]["limit_sigma"]
+                ctx.count("malformed_with_per_call_options")
             objs = reachable_ratings([args, kw, teams])
             pre_r = rating_digest(objs)
             pre_m = model_state(league.model)
@@ -1399,7 +1436,7 @@ def random_finite(rng):
                 return x
     if r < 0.8:
         return float("%.17g" % (rng.uniform(-100, 100) * 10.0 ** rng.randint(-30, 30)))
-    return rng.choice([-1, 1]) * rng.getrandbits(rng.randint(1, 52))
+    return rng.choice([-1, 1]) * rng.getrandbits(rng.randint(1, 80))  # ints, also beyond 2**53
 
 
 class StoreDriver:
@@ -1644,7 +1681,7 @@ class StoreDriver:
 
     def compare(self, what, a, b, op):
         self.ctx.evaluations += 1
-        if a != b:
+        if not out_same(a, b):
             paths = sorted(set(self.last_paths.get(n, "orig") for n in flat(op["teams"])))
             self.ctx.violation("C20/twin_diverged:%s:%s" % (what, "+".join(paths)), {"op": op, "kept_objects": a, "restored_objects": b})
 
@@ -1654,7 +1691,7 @@ class StoreDriver:
         ctx = self.ctx
         ra = exec_call(ctx, self.A, op)
         rb = exec_call(ctx, self.B, op)
-        if ra["snap"] != rb["snap"]:
+        if not snap_same(ra["snap"], rb["snap"]):
             ctx.violation("C20/twin_diverged:state_before_call", {"op": op, "kept_objects": ra["snap"], "restored_objects": rb["snap"]})
         self.compare("RATE", ra["out"], rb["out"], op)
         names = set(flat(op["teams"]))
